@@ -336,6 +336,32 @@ Example C04_witness_tick :
   length (tick_picks (Z.to_nat nsqd_opt_QueueScanSelectionCount) 50 (seq 3 40)) = 20%nat.
 Proof. vm_compute. split; reflexivity. Qed.
 
+(* Schedules (F22): one TOUCH racing one round of the in-flight timeout scan over the same
+   message, statement by statement (each takes inFlightMutex for one step at a time), in EVERY
+   interleaving and for every outcome of the two deadline comparisons: the message ends in
+   exactly one place (queued again, or in flight WITH a timeout entry), and a TOUCH that was
+   accepted and set a deadline beyond the scan's clock is not followed by a timeout from this
+   round.  The scan is the one of the CURRENT source (re-read after the pop); without the
+   re-read the statement is refuted. *)
+From NSQV Require model.TouchScan proofs.TouchScanProofs proofs.TouchScanSrc.
+Theorem C04_touch_vs_scan_every_interleaving : forall oe ne sched,
+  In sched (TouchScan.merges 4 4) ->
+  TouchScan.good_end ne (TouchScan.run TouchScanSrc.source_recheck oe ne sched) = true.
+Proof. exact TouchScanSrc.source_touch_vs_scan. Qed.
+Print Assumptions C04_touch_vs_scan_every_interleaving.
+
+(* "every interleaving": every list with four steps of each party is among the merges *)
+Theorem C04_interleavings_complete : forall n m sched,
+  length (filter TouchScanProofs.is_scan sched) = n -> length (filter TouchScanProofs.is_touch sched) = m ->
+  In sched (TouchScan.merges n m).
+Proof. exact TouchScanProofs.merges_complete. Qed.
+Print Assumptions C04_interleavings_complete.
+
+Theorem C04_scan_without_reread_refuted :
+  exists sched, In sched (TouchScan.merges 4 4) /\ TouchScan.good_end false (TouchScan.run false true false sched) = false.
+Proof. exact TouchScanProofs.scan_without_recheck_refuted. Qed.
+Print Assumptions C04_scan_without_reread_refuted.
+
 (* The model is tied to the CURRENT source: the order-of-effects facts about nsqd's core
    functions that the model assumes (proofs/CoreSrcDefs.v) hold of the statement skeletons
    regenerated from /repo on this run (gen/CoreShape.v). *)
